@@ -141,6 +141,31 @@ func runC18(c *Ctx) {
 	}
 
 	R.Rule("R-lmtp-loop", "E4+E6", "the LMTP reply loop counts down from len(rcpts) by one, reads one reply per iteration, attributes it to rcpts[len-remaining] and calls the callback at most once per iteration", 5)
+	// which end-of-data exchange runs is decided by the client's protocol (Client.lmtp), whoever created the writer
+	if f := c.A.Func("(*dataCloser).Close"); f != nil {
+		loops := findLoops(f)
+		nRd := 0
+		allInstrs(f, func(in ssa.Instruction) {
+			if !isStaticCall(in, "(*Client).readResponse") {
+				return
+			}
+			nRd++
+			inLoop := false
+			for _, li := range loops {
+				if li.blocks[in.Block()] {
+					inLoop = true
+				}
+			}
+			ff := c.F.Analyze(f)
+			if inLoop {
+				R.Ob(c.siteKey(in, "per-recipient replies read iff the client speaks LMTP"), c.P.InstrPos(in), ff.At(in)["Client.lmtp == true"], fmt.Sprintf("the per-recipient reply loop is not selected by Client.lmtp (facts: %v): a writer obtained through Data() on an LMTP client reads a single reply and leaves the others in the stream", ff.At(in).list()))
+			} else {
+				R.Ob(c.siteKey(in, "single reply read iff the client speaks SMTP"), c.P.InstrPos(in), ff.At(in)["Client.lmtp == false"], fmt.Sprintf("the single-reply exchange is not selected by Client.lmtp == false (facts: %v)", ff.At(in).list()))
+			}
+		})
+		R.Ob("(*dataCloser).Close/reads replies", c.P.Pos(f.Pos()), nRd >= 2, "expected a reply loop and a single read")
+	}
+
 	if f := c.A.Func("(*dataCloser).Close"); f != nil {
 		var loop *loopInfo
 		for _, li := range findLoops(f) {
